@@ -31,7 +31,13 @@ def renamings(st, pool):
                 names.append(n)
     if not names:
         return
-    for new in itertools.permutations(pool, len(names)):
+    allp = list(itertools.permutations(pool, len(names)))
+    if len(allp) > 40:
+        # bounded: a seeded sample of 40 injective renamings per statement (all of them when there are fewer)
+        import random
+
+        allp = random.Random(len(names) * 1000 + len(pool)).sample(allp, 40)
+    for new in allp:
         yield dict(zip(names, new))
 
 
@@ -72,8 +78,21 @@ def sibling_cases(pool):
                 yield f"sibling{k}/X={x},Y={y},A={a},B={b}", tpl.format(X=x, Y=y, A=a, B=b), exp
 
 
+# D28 (shared with C06): the sqlparse analyzer does not take a word that sqlparse lexes as a keyword (`data`, `catalog`)
+# as an alias.  Witness family: every renaming TO `data` under non-validating; confirmed by --confirm D28.
+def is_d28(tag, dialect):
+    return dialect == "non-validating" and "->data" in tag
+
+
 def main():
     thorough = "--thorough" in sys.argv
+    if "--confirm" in sys.argv:
+        sql = "insert into s1.tgt select data.a1 from s1.ta data"
+        r = LineageRunner(sql, dialect="non-validating")
+        got = {(str(p[0]), str(p[-1])) for p in r.get_column_lineage()}
+        bad = got != {("s1.ta.a1", "s1.tgt.a1")}
+        print(json.dumps({"violations": [{"clause": "end_to_end_column_pairs_unchanged_by_renaming", "sql": sql, "got": sorted(got)}] if bad else []}))
+        return 1 if bad else 0
     pool = POOL_THOROUGH if thorough else POOL_QUICK
     fails, evals, nontrivial = [], 0, set()
     for name, st in gen_stmt.statements():
@@ -99,6 +118,8 @@ def main():
                 continue
             sql = v.sql()
             for dialect in ("ansi", "non-validating"):
+                if is_d28(tag, dialect):
+                    continue
                 evals += 1
                 try:
                     r = LineageRunner(sql, dialect=dialect)
